@@ -165,6 +165,32 @@ type c11Case struct {
 	CloseDuring bool
 	// Local: the kind of local address the transport reports ("" = in-memory); see c11Locals
 	Local string
+	// StartupName / StartupBytes: a start-up packet other than the ordinary one (malformed ones, old protocol
+	// versions): whatever the server answers travels inside the TLS session, exactly as it travels in plaintext
+	StartupName  string
+	StartupBytes []byte
+}
+
+func (c c11Case) startup() []byte {
+	if c.StartupBytes != nil {
+		return c.StartupBytes
+	}
+	return pgproto.Startup("user", "alice")
+}
+
+// c11OddStartups: start-up packets the server turns away (or answers in its own way).
+func c11OddStartups() map[string][]byte {
+	ver := pgproto.Be32(pgproto.Version30)
+	return map[string][]byte{
+		"a parameter name without terminator": pgproto.Untyped(pgproto.Cat(ver, []byte("user\x00alice\x00database"))),
+		"a parameter without value":           pgproto.Untyped(pgproto.Cat(ver, []byte("user\x00alice\x00x\x00"))),
+		"no terminator of the list":           pgproto.Untyped(pgproto.Cat(ver, []byte("user\x00alice\x00"))),
+		"protocol version 2.0":                pgproto.Untyped(pgproto.Cat(pgproto.Be32(2<<16), []byte("user\x00alice\x00\x00"))),
+		"protocol version 2.1":                pgproto.Untyped(pgproto.Cat(pgproto.Be32(2<<16|1), []byte("user\x00alice\x00\x00"))),
+		"protocol version 1.0":                pgproto.Untyped(pgproto.Cat(pgproto.Be32(1<<16), []byte("alice\x00"))),
+		"protocol version 4.0":                pgproto.Untyped(pgproto.Cat(pgproto.Be32(4<<16), []byte("user\x00alice\x00\x00"))),
+		"protocol version 3.2":                pgproto.Untyped(pgproto.Cat(pgproto.Be32(3<<16|2), []byte("user\x00alice\x00\x00"))),
+	}
 }
 
 // c11CloseHook arms the recorder: at the first yield point of a statement Server.Close is called concurrently.
@@ -186,6 +212,9 @@ func (c c11Case) String() string {
 	if c.Pipelined {
 		return fmt.Sprintf("tls=%s auth=%s client=%s session=%v sent in one write together with the start-up packet", c.Cfg, c.Auth, c.Behave, names)
 	}
+	if c.StartupName != "" {
+		return fmt.Sprintf("tls=%s auth=%s client=%s start-up packet: %s, then session=%v", c.Cfg, c.Auth, c.Behave, c.StartupName, names)
+	}
 	if c.Local != "" {
 		return fmt.Sprintf("tls=%s auth=%s client=%s session=%v, the connection arrived over a %s (local address %v)", c.Cfg, c.Auth, c.Behave, names, c.Local, c11Locals[c.Local])
 	}
@@ -206,7 +235,7 @@ func (c c11Case) String() string {
 
 // c11Flight is the whole client side of a pipelined session as one byte string.
 func c11Flight(c c11Case) []byte {
-	b := pgproto.Startup("user", "alice")
+	b := c.startup()
 	if c.Auth != "" {
 		b = append(b, pgproto.Password(c.Auth)...)
 	}
@@ -233,7 +262,7 @@ func c11Plain(c c11Case) ([]string, []string, string) {
 		t, _ := harness.CanonTranscript(out)
 		return t, cbSummary(rec.Evs), ""
 	}
-	out, stp := one.Step(pgproto.Startup("user", "alice"))
+	out, stp := one.Step(c.startup())
 	all = append(all, out...)
 	if c.Auth != "" && stp == memnet.Parked {
 		out, stp = one.Step(pgproto.Password(c.Auth))
@@ -415,7 +444,7 @@ func c11RunInner(c c11Case) explore.Result {
 		}
 		// the same connection continues in plaintext with a fresh startup packet
 		var all []byte
-		out, stp := one.Step(pgproto.Startup("user", "alice"))
+		out, stp := one.Step(c.startup())
 		all = append(all, out...)
 		if c.Auth != "" && stp == memnet.Parked {
 			out, stp = one.Step(pgproto.Password(c.Auth))
@@ -535,7 +564,7 @@ func c11RunInner(c c11Case) explore.Result {
 		if c.Pipelined {
 			st2 = step(c11Flight(c))
 		} else {
-			st2 = step(pgproto.Startup("user", "alice"))
+			st2 = step(c.startup())
 			if c.Auth != "" && st2 == memnet.Parked {
 				st2 = step(pgproto.Password(c.Auth))
 			}
@@ -629,6 +658,13 @@ func c11Enumerate(tier string, emit explore.Emit) {
 		for _, b := range []string{"plaintext-instead", "second-ssl", "cancel-after"} {
 			c := c11Case{Cfg: cfg, Behave: b, Hist: []c11Letter{letters[0]}}
 			emit(explore.Case{Family: "tls", Size: 1, Desc: func() any { return c.String() }, Run: func() explore.Result { return c11Run(c) }})
+		}
+	}
+	// start-up packets the server turns away, over TLS, after a refused SSLRequest and in plaintext
+	for name, b := range c11OddStartups() {
+		for _, cfg := range []string{"certs", "nil"} {
+			c := c11Case{Cfg: cfg, Behave: "session", StartupName: name, StartupBytes: b, Hist: []c11Letter{letters[0]}}
+			emit(explore.Case{Family: "tls", Size: 2, Desc: func() any { return c.String() }, Run: func() explore.Result { return c11Run(c) }})
 		}
 	}
 	// the kind of listener does not matter: with certificates an SSLRequest is answered S over a unix-domain socket too
